@@ -1,7 +1,7 @@
 (* Correspondence + monitors for C13 (mint, conversion). Evaluated by generated cases files. *)
 From Coq Require Import ZArith List Bool.
 Import ListNotations.
-From Sunrise Require Export Base.Outcome Base.Dec Base.Bank Base.Check Econ.Mint Econ.Convert.
+From Sunrise Require Export Base.Outcome Base.Dec Base.Bank Base.Check Econ.Mint Econ.Convert Econ.Ban.
 Local Open Scope Z_scope.
 
 (* observation of one MintFn call: fee minted, bond minted, stored last-mint second *)
@@ -75,9 +75,23 @@ Definition mon_conv (c : conv_obs) : bool :=
     (nthz q 7 =? nthz p 7) && (nthz q 8 =? nthz p 8) && (0 <=? a)
   else zlist_eqb p q.
 
+(* one step of a transfer-ban scenario: [gains] = for every user account other than the
+   account the step legitimately credits, the increase of its balance of the send-disabled
+   denom (bond token or a share token) over the step; [plain_send] = the step was a bank
+   Msg/Send or Msg/MultiSend of that denom, [ok] = it succeeded *)
+Record ban_obs := { bo_plain_send : bool; bo_ok : bool; bo_gains : list Z }.
+(* the model: a plain send of a send-disabled denom fails *)
+Definition ban_corr (c : ban_obs) : bool :=
+  if bo_plain_send c then
+    negb (is_ok (snd (msg_send (fun _ => false) {| bal := fun _ _ => 1000; sup := fun _ => 0 |} 1 2 1 1))) && negb (bo_ok c)
+  else true.
+(* monitor: no user account gains the send-disabled token from another account, whatever message *)
+Definition mon_ban (c : ban_obs) : bool := forallb (fun g => g <=? 0) (bo_gains c).
+
 Inductive c13_case :=
 | CMint (i : mint_in) (o : mint_obs)
-| CConv (c : conv_obs).
+| CConv (c : conv_obs)
+| CBan (c : ban_obs).
 
 Definition c13_check (c : c13_case) : list Z :=
   match c with
@@ -85,6 +99,7 @@ Definition c13_check (c : c13_case) : list Z :=
       flag 0 (mint_corr i o) ++ flag 1 (mon_nonneg o) ++ flag 2 (mon_cap i o) ++
       flag 3 (mon_prorated i o) ++ flag 4 (mon_split i o)
   | CConv c => flag 0 (conv_corr c) ++ flag 6 (mon_conv c)
+  | CBan c => flag 0 (ban_corr c) ++ flag 7 (mon_ban c)
   end.
 
 Definition run := run_cases c13_check.
